@@ -5,8 +5,8 @@ import crashrun
 LEVEL = "fault_enumeration"
 MANIFEST = dict(cat=LEVEL, ref="DESIGN.md 3.2, 6 (C02)",
     tech="TLA+ reference spec Relational.tla generates workloads (TLC -simulate) and the admissible recovered states; every hook event of the real execution is a crash point materialised in two crash models, reopened and compared with the model",
-    text="same crash-point enumeration as C01; each reopened snapshot must open, be readable through every access path, and all views must equal one state S in {acknowledged units, acknowledged units + the in-flight unit} of Relational.tla (a transaction in flight before its COMMIT must vanish completely)",
-    note="automatic recovery path only (the degraded-mode PRAGMA recover_wal path is not driven); assumptions A-FS / A-KILL; crash points only where hooks are; open findings by signature")
+    text="same crash-point enumeration as C01; each reopened snapshot must open, be readable through every access path, and all views must equal one state S in {acknowledged units, acknowledged units + the in-flight unit} of Relational.tla (a transaction in flight before its COMMIT must vanish completely); the automatic and the streaming (PRAGMA recover_wal) recovery of the same snapshot must agree",
+    note="every third snapshot (quick; every snapshot in thorough) is also recovered through the second path - opened in degraded mode by a cfg-only switch, then PRAGMA recover_wal - and both paths must give identical views; assumptions A-FS / A-KILL; crash points only where hooks are; open findings by signature")
 
 
 def run(chk):
